@@ -226,6 +226,18 @@ func (f *Frame) execCall(cur *blockCur, in ssa.Instruction, cc *ssa.CallCommon, 
 		set(h.fn(f, cur, in, cc, args, rt, hint))
 		return
 	}
+	if c.opaqueCallee(callee) {
+		// `option opaque-pkgs=<import path>,...` on the function under verification: code of those packages is not
+		// looked into here (neither unfolded nor summarised): result unconstrained, every heap forgotten
+		c.stats.callsHavoc++
+		c.note("call to %s: package declared opaque for this proof, result unconstrained, all heaps havocked", shortFn(name))
+		f.havocAll(cur)
+		r := f.freshVal(rt, hint)
+		cur.assume(f.typeInv(r))
+		cur.assume(c.refBound(r, cur.st.watermark()))
+		set(r)
+		return
+	}
 	if con := c.eng.contractFor(callee); con != nil && !(con.Inline && c.eng.canInlineForce(callee)) {
 		c.stats.callsContract++
 		set(f.applyContract(cur, in, con, callee, nil, args, bindings, rt, hint))
@@ -260,6 +272,7 @@ func shortFn(n string) string {
 func (f *Frame) havocAll(cur *blockCur) {
 	old := cur.st
 	ns := f.c.newBase()
+	ns.immutFrom = old
 	for _, lo := range f.c.localObjs {
 		for _, k := range lo.keys {
 			ns = ns.set(k, fmt.Sprintf("(store %s %s (select %s %s))", ns.get(k), lo.ref, old.get(k), lo.ref))
@@ -269,6 +282,26 @@ func (f *Frame) havocAll(cur *blockCur) {
 	cur.st = ns
 	// the allocation watermark may have risen, never fallen (alloc.go)
 	cur.assume(fmt.Sprintf("(>= %s %s)", ns.watermark(), old.watermark()))
+	// foreign memory holds valid values after the unknown code as it did at entry: the objects the parameters point
+	// to satisfy their declared type invariants (typeinv.go)
+	root := f
+	for root.callerFrame != nil {
+		root = root.callerFrame
+	}
+	if root.fn != nil {
+		for _, p := range root.fn.Params {
+			pt, ok := p.Type().Underlying().(*types.Pointer)
+			if !ok || !f.c.hasTypeInv(pt.Elem()) {
+				continue
+			}
+			v, ok := root.vals[p]
+			if !ok || v.S == "" {
+				continue
+			}
+			obj := f.c.load(ns, &Ptr{Root: v.S, Obj: pt.Elem()}, pt.Elem())
+			cur.assume(fmt.Sprintf("(=> (not (= %s 0)) %s)", v.S, f.c.userTypeInv(Val{T: pt.Elem(), S: obj})))
+		}
+	}
 }
 
 type localObj struct {
@@ -729,4 +762,31 @@ func (f *Frame) inlineCall(cur *blockCur, in ssa.Instruction, callee *ssa.Functi
 		return Val{T: rt, Tup: []Val{}}, true
 	}
 	return f.mergeVals(rt, rvals, conds, hint), true
+}
+
+// opaqueCallee: the callee belongs to a package the root contract declares opaque (`option opaque-pkgs=p1,p2`).
+func (c *FuncCtx) opaqueCallee(callee *ssa.Function) bool {
+	if c.rootCon == nil || callee == nil {
+		return false
+	}
+	list := c.rootCon.Options["opaque-pkgs"]
+	if list == "" {
+		return false
+	}
+	pk := callee.Pkg
+	for p := callee.Parent(); pk == nil && p != nil; p = p.Parent() {
+		pk = p.Pkg
+	}
+	if pk == nil && callee.Origin() != nil {
+		pk = callee.Origin().Pkg
+	}
+	if pk == nil {
+		return false
+	}
+	for _, o := range strings.Split(list, ",") {
+		if strings.TrimSpace(o) == pk.Pkg.Path() {
+			return true
+		}
+	}
+	return false
 }
